@@ -1284,13 +1284,16 @@ class H2Stream:
         pipeline on them to transform them into the appropriate form for
         attaching to an event.
         """
+        # Validation has to see the header block as it was received: joining
+        # the cookie fields first would move them behind later pseudo-header
+        # fields and change the values that are checked.
+        if self.config.validate_inbound_headers:
+            headers = validate_headers(headers, header_validation_flags)
+
         if self.config.normalize_inbound_headers:
             headers = normalize_inbound_headers(
                 headers, header_validation_flags
             )
-
-        if self.config.validate_inbound_headers:
-            headers = validate_headers(headers, header_validation_flags)
 
         if header_encoding:
             headers = _decode_headers(headers, header_encoding)
